@@ -333,7 +333,7 @@ def targetQuota (budgetMilli : Int) : Int :=
 def adjustQuota (f : FloatOps) (budgetMilli cur capMilli : Int) : QOutcome :=
   let q := targetQuota budgetMilli
   let cores := coresOf capMilli
-  if f.bypassLt q cur cores && q != beMinQuota then .bypass else
+  if f.bypassLt q cur cores && q != beMinQuota && cur != beUnsetQuota then .bypass else
   if f.stepGt q cur cores && cur != beUnsetQuota then .write (cur + f.stepInc cores) else .write q
 
 end KoordVerif.C10
